@@ -193,6 +193,21 @@ CLAIMED = {
         "note": "R8.partition is a bounded enumeration of an arithmetic slice, not an exhaustive argument.",
         "design_ref": "DESIGN.md section 3 / C16",
     },
+    "C18": {
+        "technique": "table agreement on the per-format limits (constants evaluated by clang), structural rule on the "
+                     "'one too-large variable, last' passes, dominance rule on the CDF-1 offset test, type-based "
+                     "narrowing-cast rule with guard recognition over the geometry functions, comparator rule",
+        "text": "Decides six structural clauses: the per-format maximum variable sizes (2^63-4, 2^32-4, 2^31-4) and their "
+                "guards in ncmpio_NC_check_vlens; the 'at most one too-large variable and it must be last' structure "
+                "of both passes; that in both passes of NC_begins the value stored as a variable's offset is itself "
+                "tested against 2^31-1 for CDF-1; the ncmpi_def_dim limits; that every 64->32 bit conversion in 30 "
+                "offset/geometry functions is range-guarded (limit test on the right edge, round-trip test, flag from "
+                "an NC_MAX_INT scan, clamp, or a listed reasoned site); that qsort comparators do not return a truncated "
+                "64-bit difference. Correctness of the layout decision over all variable sequences, and data placement "
+                "at large offsets, are not decided; the intra-node aggregation layer is outside the narrowing rule.",
+        "note": "LP64 build; guard recognition is syntactic-structural (dominating comparison on the same expression text).",
+        "design_ref": "DESIGN.md section 3 / C18, rules R10, R12",
+    },
 }
 
 NA_REASON = {
